@@ -156,6 +156,26 @@ class Helper:
                                     isinstance(t.value, ast.Name) and
                                     t.value.id == init.self_name):
                                 p2a[n.value.id] = t.attr
+                # attributes initialised from an expression that is not a
+                # bare parameter (``self._old_cache = context.old_cache``)
+                for n in ast.walk(init.node):
+                    if not (isinstance(n, ast.Assign) and not (
+                            isinstance(n.value, ast.Name) and
+                            n.value.id in init.params)):
+                        continue
+                    if cache not in prog.type_of(n.value, init):
+                        continue
+                    for t in n.targets:
+                        if (isinstance(t, ast.Attribute) and
+                                isinstance(t.value, ast.Name) and
+                                t.value.id == init.self_name):
+                            for cn in self.node_of(init, n)[:1]:
+                                r = self.expr_roles(n.value, init, cn, roles)
+                                r = r - {'unknown'} if _ < 7 else r
+                                s = roles.setdefault((cname, t.attr), set())
+                                if not r <= s:
+                                    s |= r
+                                    changed = True
                 for caller, call in prog.callers().get(init.qualname, []):
                     binding = prog.bind_args(call, init)
                     for p, a in binding.items():
@@ -450,6 +470,11 @@ class Helper:
             if d is not None:
                 return {('global', d)}
             rts = prog.type_of(e.value, func)
+            if self._value_object_field(rts, e.attr):
+                # a namedtuple-like value object is as transparent as the
+                # tuple it replaces
+                return self.origins(e.value, func, cn, stop, env, depth + 1,
+                                    seen)
             pk = [c for rt in rts if rt in prog.classes
                   for c in prog.mro(rt)
                   if (c, e.attr) in prog.attr_types or
@@ -464,6 +489,13 @@ class Helper:
                 if stop is not None and stop(name):
                     out.add(('call', name, prog.loc(func, e)))
                 elif isinstance(g, Func):
+                    if g.is_ctor_call and getattr(
+                            prog.classes.get(g.cls_for_ctor), 'synthetic',
+                            False):
+                        for a in list(e.args) + [k.value for k in e.keywords]:
+                            out |= self.origins(a, func, cn, stop, env,
+                                                depth + 1, seen)
+                        continue
                     if g.is_ctor_call:
                         out.add(('new', g.cls_for_ctor))
                         continue
@@ -540,6 +572,26 @@ class Helper:
         if isinstance(e, ast.JoinedStr):
             return {('format',)}
         return {('unknown', type(e).__name__)}
+
+    def _value_object_field(self, rts, attr):
+        prog = self.prog
+        syn = [c for c in prog.classes.values()
+               if getattr(c, 'synthetic', False)]
+        if not syn:
+            return False
+        if any(getattr(prog.classes.get(rt), 'synthetic', False)
+               for rt in rts):
+            return True
+        if rts:
+            return False
+        # receiver of unknown type: the name is a field of a value object
+        # and of no real class
+        in_syn = any(attr in c.methods['__init__'].params for c in syn)
+        in_real = any((c, attr) in prog.attr_types or
+                      self._has_attr_store(c, attr)
+                      for c in prog.classes
+                      if not getattr(prog.classes[c], 'synthetic', False))
+        return in_syn and not in_real
 
     def _tuple_returns(self, call, func, i):
         """(callee, return node, i-th element) for every ``return (a, b,
